@@ -1,6 +1,7 @@
 //! vcheck: driver for all checks.  `vcheck <ID> quick|thorough`, `vcheck <ID> --replay <file>`, `vcheck --warm`.
 //! Exit codes: 0 held, 1 violation (prints `VIOLATION property=<id> replay=<path>`), 2 inconclusive.
 
+mod c19;
 mod corpus;
 mod inproc;
 mod props;
@@ -174,7 +175,11 @@ fn reduce(env: &Env, id: &str, v: &Violation, seed: u64) -> EnumSpec {
                 break 'outer;
             }
             builds += 1;
-            let o = eval_single(env, id, &c, "quick", seed, None, Some(vec![profile]));
+            let o = if id == "C19" {
+                c19::replay(env, &json!({"spec": c, "profile": v.profile})).1
+            } else {
+                eval_single(env, id, &c, "quick", seed, None, Some(vec![profile]))
+            };
             if o.inconclusive.is_none() && o.violations.iter().any(|x| x.kind == v.kind) {
                 cur = c;
                 continue 'outer;
@@ -186,6 +191,9 @@ fn reduce(env: &Env, id: &str, v: &Violation, seed: u64) -> EnumSpec {
 }
 
 fn source_of(id: &str, spec: &EnumSpec) -> String {
+    if id == "C19" {
+        return vmodel::emit::enum_def(spec, &vmodel::emit::enum_opts(spec, &spec.name));
+    }
     props::module_for(id, spec).src.text
 }
 
@@ -285,7 +293,7 @@ fn write_evidence(env: &Env, id: &str, tier: &str, seed: u64, out: &Outcome, wal
 }
 
 fn is_corpus_property(id: &str) -> bool {
-    !matches!(id, "C20")
+    !matches!(id, "C20" | "C19")
 }
 
 fn run_check(env: &Env, id: &str, tier: &str, seed: u64) -> i32 {
@@ -325,6 +333,9 @@ fn run_check(env: &Env, id: &str, tier: &str, seed: u64) -> i32 {
                 }
             }
         }
+        if id == "C19" {
+            c19::run(env, tier, seed, &mut out);
+        }
         inproc::run(env, id, tier, seed, &mut out);
     }
     let wall = start.elapsed().as_secs_f64();
@@ -353,7 +364,7 @@ fn run_check(env: &Env, id: &str, tier: &str, seed: u64) -> i32 {
             if !seen.insert(v.kind.clone()) {
                 continue;
             }
-            let reduced = if v.spec.is_some() && is_corpus_property(id) && std::env::var("VERIF_NO_REDUCE").is_err() { Some(reduce(env, id, v, seed)) } else { None };
+            let reduced = if v.spec.is_some() && (is_corpus_property(id) || id == "C19") && std::env::var("VERIF_NO_REDUCE").is_err() { Some(reduce(env, id, v, seed)) } else { None };
             let p = write_replay(env, id, v, reduced.as_ref(), seed);
             println!("VIOLATION property={} replay={}", id, p.display());
             let d = v.detail.to_string();
@@ -383,6 +394,9 @@ fn cleanup(env: &Env, id: &str) {
 
 fn replay_file(env: &Env, id: &str, path: &std::path::Path, seed: u64) -> (i32, Outcome) {
     let doc: Value = serde_json::from_str(&std::fs::read_to_string(path).expect("read replay")).expect("parse replay");
+    if id == "C19" {
+        return c19::replay(env, &doc);
+    }
     if !is_corpus_property(id) || doc["spec"].is_null() {
         return inproc::replay(env, id, &doc);
     }
